@@ -123,7 +123,6 @@ func ruleWalkPrologue(c *Ctx) {
 		c.Check(len(bad) == 0, "prologue:"+name, p.Pos(fd), "no successful return precedes the walk", name+" can return before its loop looked at any element: "+strings.Join(bad, "; ")+" — the result then does not come from the walk the other APIs perform", "compare with a plain Advance walk on small and large containers")
 	}
 	c.MinCount("walking methods of the read API", nFuncs, 22)
-	c.MinCount("returns preceding a walk", nRets, 2)
 }
 
 func isNilIdent(e ast.Expr) bool {
